@@ -29,10 +29,45 @@
  *             "writes nothing outside width/8 octets, returns ptr + width/8"
  *   swap      reversal and involution, structured + sweeps
  *   inrange   structured boundaries over the whole argument type + sweeps
+ *   typed     the datum lives in an object whose declared element type is
+ *             uint16_t, uint32_t or uint64_t (a register image) at octet offsets
+ *             0..7.  The harness assigns and reads single elements of the image
+ *             through lvalues of that type directly before/after the codec
+ *             call, inside one optimised function per (row, element type) into
+ *             which the codec is inlined: store after every element was
+ *             assigned, load before and after every element is assigned.
+ *             "Loading those octets returns the same value" and "writes exactly
+ *             width/8 octets" must hold for such memory too; a codec that
+ *             accesses memory through an lvalue of another non-character type
+ *             lets the optimiser reorder it against the image accesses.
+ *
+ * Build variants (engine/checks.d/C15.py): the same source is compiled as
+ *   c15_binfmt                       -O2, swap builtins          (all families)
+ *   c15_binfmt_o2_portable_swap      -O2, -UUFW_USE_BUILTIN_SWAP (C15_LIGHT)
+ *   c15_binfmt_o1_portable_swap      -O1, -UUFW_USE_BUILTIN_SWAP (C15_LIGHT)
+ * all with -fsanitize=alignment: "at any alignment" is part of the statement, a
+ * codec that dereferences a uintNN_t lvalue at an odd address is reported by
+ * the sanitizer (attributed to the case in flight as clause memsafe).
+ * C15_LIGHT: the 24-bit rows are swept once with the offset rotating with the
+ * pattern instead of once per offset, the 2^32 row and predicate sweeps are left
+ * to the main variant; structured families, typed images and swap sweeps are
+ * complete in every variant.
  */
 #include "mc.h"
 
 #include <ufw/binary-format.h>
+
+/* which build of the header this is (the bound text of the evidence says so) */
+#if defined(UFW_USE_BUILTIN_SWAP)
+#define C15_SWAPS "swap builtins"
+#else
+#define C15_SWAPS "portable swaps"
+#endif
+#if defined(__OPTIMIZE__) && !defined(C15_O1)
+#define C15_BUILD "-O2, " C15_SWAPS
+#else
+#define C15_BUILD "-O1, " C15_SWAPS
+#endif
 
 /* ======================================================================== *
  *  The function table
@@ -665,6 +700,268 @@ family_value(void)
 }
 
 /* ======================================================================== *
+ *  Memory with a declared element type
+ * ======================================================================== */
+
+#define TIMG 32 /* octets per image */
+#define TDAT 8  /* the datum starts at octet TDAT + off */
+static uint16_t timg_e16[TIMG / 2];
+static uint32_t timg_e32[TIMG / 4];
+static uint64_t timg_e64[TIMG / 8];
+
+/* The image is only ever touched through lvalues of its declared element type
+ * E (the four kinds of function below) and by the codec under test.
+ *   tload   load; assign element i; load again          -> both loaded values
+ *   tstore  assign element i; store; read element i     -> returned address, element
+ *   tfill   assign every element          tread   read every element
+ * tload/tstore keep the codec call and the element access next to each other in
+ * one optimised function with the codec inlined; results come back in
+ * registers, so that no other store stands between the accesses.  tfill/tread
+ * xor with a key so that the loops are not turned into memcpy (which would hide
+ * the element type from the optimiser). */
+struct tloaded {
+    uint64_t stale, fresh;
+};
+struct tstored {
+    void *ret;
+    uint64_t elem;
+};
+typedef struct tloaded tloadfn(void *img, unsigned i, uint64_t elem, const void *p);
+typedef struct tstored tstorefn(void *img, unsigned i, uint64_t elem, void *p, uint64_t arg);
+typedef void tfillfn(void *img, const void *src, uint64_t key);
+typedef void treadfn(const void *img, void *dst, uint64_t key);
+
+#define TYPEDFN(W, K, O, T, E, EN)                                             \
+    static __attribute__((noinline)) struct tloaded tload_##K##W##O##_##EN(void *img, unsigned i, uint64_t elem, \
+                                                                           const void *p) \
+    {                                                                          \
+        E *w = img;                                                            \
+        struct tloaded r;                                                      \
+        r.stale = wr_##K##W##O(p);                                             \
+        w[i] = (E)elem;                                                        \
+        r.fresh = wr_##K##W##O(p);                                             \
+        return r;                                                              \
+    }                                                                          \
+    static __attribute__((noinline)) struct tstored tstore_##K##W##O##_##EN(void *img, unsigned i, uint64_t elem, \
+                                                                            void *p, uint64_t arg) \
+    {                                                                          \
+        E *w = img;                                                            \
+        struct tstored r;                                                      \
+        w[i] = (E)elem;                                                        \
+        r.ret = ws_##K##W##O(p, arg);                                          \
+        r.elem = w[i];                                                         \
+        return r;                                                              \
+    }
+#define TYPED16(W, K, O, T) TYPEDFN(W, K, O, T, uint16_t, e16)
+#define TYPED32(W, K, O, T) TYPEDFN(W, K, O, T, uint32_t, e32)
+#define TYPED64(W, K, O, T) TYPEDFN(W, K, O, T, uint64_t, e64)
+ALL_ROWS(TYPED16)
+ALL_ROWS(TYPED32)
+ALL_ROWS(TYPED64)
+
+#define TYPEDIMG(E, EN)                                                        \
+    static __attribute__((noinline)) void tfill_##EN(void *img, const void *src, uint64_t key) \
+    {                                                                          \
+        E *w = img;                                                            \
+        const E *s = src;                                                      \
+        for (unsigned i = 0; i < TIMG / sizeof(E); ++i)                        \
+            w[i] = (E)(s[i] ^ (E)key);                                         \
+    }                                                                          \
+    static __attribute__((noinline)) void tread_##EN(const void *img, void *dst, uint64_t key) \
+    {                                                                          \
+        const E *w = img;                                                      \
+        E *d = dst;                                                            \
+        for (unsigned i = 0; i < TIMG / sizeof(E); ++i)                        \
+            d[i] = (E)(w[i] ^ (E)key);                                         \
+    }
+TYPEDIMG(uint16_t, e16)
+TYPEDIMG(uint32_t, e32)
+TYPEDIMG(uint64_t, e64)
+
+struct typedrow {
+    tloadfn *load[3];
+    tstorefn *store[3];
+};
+#define TYPEDROW(W, K, O, T)                                                   \
+    { { tload_##K##W##O##_e16, tload_##K##W##O##_e32, tload_##K##W##O##_e64 },  \
+      { tstore_##K##W##O##_e16, tstore_##K##W##O##_e32, tstore_##K##W##O##_e64 } },
+static const struct typedrow typedrows[] = { ALL_ROWS(TYPEDROW) }; /* same order as rows[] */
+
+static void *const timgs[3] = { timg_e16, timg_e32, timg_e64 };
+static tfillfn *const tfills[3] = { tfill_e16, tfill_e32, tfill_e64 };
+static treadfn *const treads[3] = { tread_e16, tread_e32, tread_e64 };
+static const char *const tnames[3] = { "uint16_t", "uint32_t", "uint64_t" };
+static const char *const toutcomes[3] = { "typed-image-u16", "typed-image-u32", "typed-image-u64" };
+#define TKEY 0x5a5a5a5a5a5a5a5aull
+
+/* element i (size es) of an octet image as the value an E lvalue holds on this host */
+static uint64_t
+elem_of(const unsigned char *octets, int i, int es)
+{
+    uint64_t x = 0;
+    memcpy(&x, octets + i * es, (size_t)es); /* little-endian host (anchored): low octets first */
+    return x;
+}
+
+/* the row's value of nb octets (reference decoding: the inverse of encode()) */
+static uint64_t
+decode(const struct row *r, const unsigned char *o)
+{
+    const int W = r->width, nb = W / 8;
+    uint64_t v = 0;
+    for (int j = 0; j < nb; ++j)
+        v |= (uint64_t)o[j] << (row_big(r) ? (W - 8 * (j + 1)) : (8 * j));
+    return canon(r, v);
+}
+
+/* staging objects of each element type, so that tfill/tread only ever use
+ * lvalues of the declared type of what they touch */
+static uint16_t tstage_e16[TIMG / 2];
+static uint32_t tstage_e32[TIMG / 4];
+static uint64_t tstage_e64[TIMG / 8];
+
+static void
+typed_fill(int ei, const unsigned char *octets)
+{
+    const int es = 2 << ei, ne = TIMG / es;
+    for (int i = 0; i < ne; ++i) {
+        const uint64_t x = elem_of(octets, i, es) ^ TKEY;
+        if (ei == 0)
+            tstage_e16[i] = (uint16_t)x;
+        else if (ei == 1)
+            tstage_e32[i] = (uint32_t)x;
+        else
+            tstage_e64[i] = x;
+    }
+    void *volatile vimg = timgs[ei];
+    void *volatile vsrc = (ei == 0) ? (void *)tstage_e16 : (ei == 1) ? (void *)tstage_e32 : (void *)tstage_e64;
+    tfills[ei](vimg, vsrc, TKEY);
+}
+
+static void
+typed_read(int ei, unsigned char *octets)
+{
+    const int es = 2 << ei, ne = TIMG / es;
+    void *volatile vimg = timgs[ei];
+    void *volatile vdst = (ei == 0) ? (void *)tstage_e16 : (ei == 1) ? (void *)tstage_e32 : (void *)tstage_e64;
+    treads[ei](vimg, vdst, TKEY);
+    for (int i = 0; i < ne; ++i) {
+        const uint64_t x = ((ei == 0) ? tstage_e16[i] : (ei == 1) ? tstage_e32[i] : tstage_e64[i]) ^ TKEY;
+        memcpy(octets + i * es, &x, (size_t)es); /* little-endian host (anchored): low octets first */
+    }
+}
+
+/* One pattern at one offset in one typed image. */
+static bool
+typed_one(int ri, int ei, uint64_t v, int off)
+{
+    const struct row *r = &rows[ri];
+    const int W = r->width, nb = W / 8;
+    const int es = 2 << ei, ne = TIMG / es;
+    unsigned char oldo[TIMG], newo[TIMG], cur[TIMG], exp[8];
+    encode(exp, v, W, row_big(r));
+    for (int i = 0; i < TIMG; ++i)
+        oldo[i] = newo[i] = canary((size_t)i);
+    for (int j = 0; j < nb; ++j) {
+        newo[TDAT + off + j] = exp[j];
+        oldo[TDAT + off + j] = (unsigned char)~exp[j];
+    }
+    /* the optimiser must not learn that the image and the datum pointer are related */
+    void *volatile vimg = timgs[ei];
+    void *volatile vdat = (unsigned char *)timgs[ei] + TDAT + off;
+    const uint64_t arg = canon(r, v);
+    char h1[32], h2[32];
+
+    /* stores: the image holds the complement; element i is assigned (its old
+     * content), the datum is stored, element i is read */
+    for (int i = 0; i < ne; ++i) {
+        typed_fill(ei, oldo);
+        void *img = vimg, *p = vdat;
+        const struct tstored st = typedrows[ri].store[ei](img, (unsigned)i, elem_of(oldo, i, es), p, arg);
+        const uint64_t want = elem_of(newo, i, es);
+        if (st.elem != want) {
+            const bool in_datum = (i + 1) * es > TDAT + off && i * es < TDAT + off + nb;
+            mc_fail(in_datum ? "C15/store-octets" : "C15/neighbours-untouched",
+                    "%s(image+%d, 0x%llx) in a %s image: element %d assigned 0x%0*llx before the store reads 0x%0*llx "
+                    "after it, expected 0x%0*llx", r->setname, TDAT + off, (unsigned long long)arg, tnames[ei], i, 2 * es,
+                    (unsigned long long)elem_of(oldo, i, es), 2 * es, (unsigned long long)st.elem, 2 * es,
+                    (unsigned long long)want);
+            return false;
+        }
+        if (st.ret != (void *)((unsigned char *)p + nb)) {
+            mc_fail("C15/returns-past-end", "%s(image+%d, 0x%llx) in a %s image returned ptr%+lld, expected ptr+%d",
+                    r->setname, TDAT + off, (unsigned long long)arg, tnames[ei],
+                    (long long)((unsigned char *)st.ret - (unsigned char *)p), nb);
+            return false;
+        }
+        typed_read(ei, cur);
+        if (memcmp(cur + TDAT + off, exp, (size_t)nb) != 0) {
+            mc_fail("C15/store-octets", "%s(image+%d, 0x%llx) in a %s image: the image reads back [%s], expected [%s]",
+                    r->setname, TDAT + off, (unsigned long long)arg, tnames[ei], hex(h1, cur + TDAT + off, nb),
+                    hex(h2, exp, nb));
+            return false;
+        }
+        for (int k = 0; k < TIMG; ++k)
+            if (cur[k] != newo[k]) {
+                mc_fail("C15/neighbours-untouched",
+                        "%s(image+%d, 0x%llx) in a %s image changed the octet at datum%+d to %02x", r->setname,
+                        TDAT + off, (unsigned long long)arg, tnames[ei], k - (TDAT + off), cur[k]);
+                return false;
+            }
+    }
+    /* loads: the image holds the complement and is turned into the new image
+     * element by element; the datum is loaded directly before and after each
+     * assignment */
+    typed_fill(ei, oldo);
+    memcpy(cur, oldo, TIMG);
+    for (int i = 0; i < ne; ++i) {
+        void *img = vimg, *p = vdat;
+        const uint64_t want_stale = decode(r, cur + TDAT + off);
+        memcpy(cur + i * es, newo + i * es, (size_t)es);
+        const uint64_t want_fresh = decode(r, cur + TDAT + off);
+        const struct tloaded ld = typedrows[ri].load[ei](img, (unsigned)i, elem_of(newo, i, es), p);
+        if (ld.stale != want_stale) {
+            mc_fail(load_clause(r), "%s(image+%d) in a %s image before element %d is assigned returned 0x%llx, expected 0x%llx",
+                    r->refname, TDAT + off, tnames[ei], i, (unsigned long long)ld.stale, (unsigned long long)want_stale);
+            return false;
+        }
+        if (ld.fresh != want_fresh) {
+            mc_fail(load_clause(r), "%s(image+%d) over [%s] after element %d of the %s image was assigned 0x%0*llx "
+                    "returned 0x%llx, expected 0x%llx", r->refname, TDAT + off, hex(h1, cur + TDAT + off, nb), i,
+                    tnames[ei], 2 * es, (unsigned long long)elem_of(newo, i, es), (unsigned long long)ld.fresh,
+                    (unsigned long long)want_fresh);
+            return false;
+        }
+    }
+    return true;
+}
+
+static void
+family_typed(void)
+{
+    for (int ri = 0; ri < NROWS; ++ri) {
+        const struct row *r = &rows[ri];
+        const int W = r->width, nb = W / 8;
+        const struct fam *f = (r->kind == KIND_f) ? &ffams[nb] : &fams[nb];
+        for (int ei = 0; ei < 3; ++ei)
+            for (int vi = 0; vi < f->n; ++vi) {
+                if (f->tag[vi] != 'E' && f->tag[vi] != 'A' && f->tag[vi] != 'F')
+                    continue; /* edges, the unit test's constants, float classes */
+                const uint64_t v = f->v[vi];
+                if (!mc_case("typed fn=%s/%s image=%s[%d] pattern=0x%0*llx (%s) datum at octets %d..%d", r->setname,
+                             r->refname, tnames[ei], (int)(TIMG / (2u << ei)), 2 * nb, (unsigned long long)v,
+                             tagname(f->tag[vi]), TDAT, TDAT + 7))
+                    continue;
+                for (int off = 0; off < 8; ++off)
+                    if (!typed_one(ri, ei, v, off))
+                        break;
+                mc_trans(8 * 3 * (TIMG / (2 << ei)));
+                mc_end(true, toutcomes[ei]);
+            }
+    }
+}
+
+/* ======================================================================== *
  *  Sweeps
  * ======================================================================== */
 
@@ -748,10 +1045,15 @@ family_sweep(void)
 {
     for (int ri = 0; ri < NROWS; ++ri) {
         const struct row *r = &rows[ri];
+#ifdef C15_LIGHT
+        if (r->width <= 24)
+            sweep_row(r, r->width == 16);
+#else
         if (r->width <= 24)
             sweep_row(r, true);
         else if (r->width == 32 && mc_thorough())
             sweep_row(r, false);
+#endif
     }
 }
 
@@ -933,7 +1235,11 @@ family_range(void)
             mc_trans(1);
             mc_end(a != 0, acc ? "inrange-accept" : "inrange-reject");
         }
+#ifdef C15_LIGHT
+        if (false) {
+#else
         if (B == 32 && mc_thorough()) {
+#endif
             for (uint64_t base = 0; base < ((uint64_t)1 << 32); base += CHUNK) {
                 if (!mc_case("inrange-sweep fn=%s argument-bits=0x%08llx..0x%08llx", g->name, (unsigned long long)base,
                              (unsigned long long)(base + CHUNK - 1)))
@@ -969,13 +1275,25 @@ main(int argc, char **argv)
     family_wide();
     family_swap();
     family_range();
+    family_typed();
     family_sweep();
-    mc_finish(true, mc_thorough()
-        ? "111 functions; every pattern of the 16-, 24- and 32-bit rows (u/s/f x n/b/l); structured families "
-          "(octet lanes x octet values x 3 backgrounds, single bits, 2^k+-1, boundaries, float classes, NaN payloads) "
-          "for all rows at offsets 0..7; swap16/24/32 over all 2^16/2^32/2^32 arguments; inrange_u24/s24 over all 2^32"
-        : "111 functions; every pattern of the 16- and 24-bit rows at offsets 0..7; structured families "
-          "(octet lanes x octet values x 3 backgrounds, single bits, 2^k+-1, boundaries, float classes, NaN payloads) "
-          "for all rows at offsets 0..7; swap16/24 over all in-range arguments; inrange over the structured family");
+    static char bound[1024];
+    snprintf(bound, sizeof bound, "build %s: 111 functions; %s; structured families "
+             "(octet lanes x octet values x 3 backgrounds, single bits, 2^k+-1, boundaries, float classes, NaN payloads) "
+             "for all rows at offsets 0..7 in exact-size and canaried blocks; edges, test constants and float classes of "
+             "every row in uint16_t/uint32_t/uint64_t images at offsets 0..7; %s",
+             C15_BUILD,
+#ifdef C15_LIGHT
+             "every pattern of the 16-bit rows at offsets 0..7 and of the 24-bit rows at a rotating offset",
+             mc_thorough() ? "swap16/24/32 over all 2^16/2^32/2^32 arguments; inrange over the structured family"
+                           : "swap16/24 over all in-range arguments; inrange over the structured family"
+#else
+             mc_thorough() ? "every pattern of the 16-, 24- and 32-bit rows (u/s/f x n/b/l)"
+                           : "every pattern of the 16- and 24-bit rows at offsets 0..7",
+             mc_thorough() ? "swap16/24/32 over all 2^16/2^32/2^32 arguments; inrange_u24/s24 over all 2^32"
+                           : "swap16/24 over all in-range arguments; inrange over the structured family"
+#endif
+    );
+    mc_finish(true, bound);
     return 0;
 }
